@@ -40,8 +40,19 @@ type layout struct {
 }
 
 func scenario(cfg hlib.ChanCfg, lay layout, closer string, bound int) *explore.Scenario {
+	return scenarioStall(cfg, lay, closer, bound, 0)
+}
+
+// scenarioStall: with stall > 0 the sender is stuck inside the transport (its Writev
+// does not return) until an environment goroutine releases it after `stall` of
+// virtual time - within the documented grace period of bounded-wait channels.
+func scenarioStall(cfg hlib.ChanCfg, lay layout, closer string, bound int, stall time.Duration) *explore.Scenario {
+	name := fmt.Sprintf("%s/%s/close=%s", cfg, lay.name, closer)
+	if stall > 0 {
+		name += fmt.Sprintf("/stall=%v", stall)
+	}
 	return &explore.Scenario{
-		Name:  fmt.Sprintf("%s/%s/close=%s", cfg, lay.name, closer),
+		Name:  name,
 		Bound: bound,
 		Cfg:   vsched.Config{MaxSteps: 5000, EarlyTicks: true},
 		Init:  func() any { return &obs{} },
@@ -51,6 +62,13 @@ func scenario(cfg hlib.ChanCfg, lay layout, closer string, bound int) *explore.S
 				o.env = hlib.NewEnv(cfg, nil, &closeOnRead{})
 			} else {
 				o.env = hlib.NewEnv(cfg, nil)
+			}
+			if stall > 0 {
+				o.env.T.Stalled = true
+				vsched.Go("peer", func() {
+					vsched.Sleep(int64(stall))
+					o.env.T.Release()
+				})
 			}
 			id := 1
 			var ths []*vsched.Thread
@@ -167,6 +185,20 @@ func build(tier string) []*explore.Scenario {
 					s.Cache = os.Getenv("VERIF_NOCACHE") == ""
 					scs = append(scs, s)
 				}
+			}
+		}
+	}
+	// sender stalled inside the transport for less than the grace period
+	for _, until := range []bool{false, true} {
+		for _, q := range []int{1, 2} {
+			for _, st := range []time.Duration{400 * time.Millisecond, 900 * time.Millisecond} {
+				lay := layout{"1w:W1", [][]hlib.EP{{hlib.Write1}}}
+				if q == 2 {
+					lay = layout{"1w:W1,WV", [][]hlib.EP{{hlib.Write1, hlib.Writev}}}
+				}
+				s := scenarioStall(hlib.ChanCfg{Q: q, Until: until}, lay, "user", 2, st)
+				s.Cache = true
+				scs = append(scs, s)
 			}
 		}
 	}
